@@ -26,7 +26,7 @@ RULE = (
     "segments_3d are evaluated for all 8 presentations (swap arguments, reverse either segment) and must give "
     "None / one column equal to the point / two columns equal as a set to the end points of the common segment "
     "(1e-9 absolute + relative). Thorough tier: exhaustive enumeration of all unordered pairs of lattice segments "
-    "in [-2,2]^2 and [-1,1]^3 (plus [-3,3]^2 if time permits). Non-trivial = the supporting lines are coplanar "
+    "in [-2,2]^2, [-1,1]^3, [-3,3]^2 and [-1,2]^3 (2.8 million pairs). Non-trivial = the supporting lines are coplanar "
     "(every 2-d pair; in 3-d: parallel, or meeting lines); distinct = hash of spec."
 )
 BUDGET = {"quick": {"cases": 40000, "seconds": 35}, "thorough": {"cases": 3000000, "seconds": 1100}}
@@ -34,7 +34,7 @@ TECHNIQUE = ("property-based testing (Hypothesis) with constructed degeneracy cl
              "rational arithmetic; exhaustive enumeration of small lattice boxes in the thorough tier")
 LEVEL_TEXT = ("Exploration (quick): tens of thousands of integer segment pairs per run with every degeneracy class "
               "forced by construction, each checked in all 8 presentations against an exact Fraction oracle. "
-              "Thorough: exhaustive over all pairs of lattice segments in [-2,2]^2, [-1,1]^3 and [-3,3]^2.")
+              "Thorough: exhaustive over all pairs of lattice segments in [-2,2]^2, [-1,1]^3, [-3,3]^2 and [-1,2]^3.")
 LEVEL_NOTE = ("Integer coordinates only, so every degeneracy is exact or at least 1e-4 away from the functions' 1e-8 "
               "tolerances; behaviour inside the tolerance band is not examined. Zero-length segments are not "
               "generated. In 3-d a two-column result with identical columns is accepted for a one-point intersection "
@@ -45,11 +45,24 @@ ASSUMPTIONS = [
     "both segments have distinct end points",
     "a (3,2) result with two equal columns counts as the single point (3-d collinear touching)",
 ]
+# One table serves both tiers (the runner has no per-tier REQUIRED): each threshold is about a third of the
+# smaller of the two observed frequencies - the quick generator (first number) and the exhaustive
+# enumeration, which is dominated by 3-d skew pairs (second number).
 REQUIRED = {
-    "2d": 0.3, "3d": 0.3, "kind-none": 0.1, "kind-point": 0.1, "kind-segment": 0.03,
-    "parallel-noncollinear": 0.02, "collinear-disjoint": 0.01, "collinear-touch": 0.01,
-    "endpoint-touch": 0.03, "interior-cross": 0.03, "3d-skew": 0.02, "near-miss": 0.02,
-    "rational-point": 0.015, "3d-degenerate-projection": 0.03,
+    "2d": 0.1,                        # 51 % / 26 %
+    "3d": 0.1,                        # 48 % / 74 %
+    "kind-none": 0.1,                 # 37 % / 85 %
+    "kind-point": 0.05,               # 57 % / 14.5 %
+    "kind-segment": 0.001,            # 5.7 % / 0.29 %
+    "parallel-noncollinear": 0.008,   # 9.7 % / 2.5 %
+    "collinear-disjoint": 0.0001,     # 2.0 % / 0.028 %
+    "collinear-touch": 0.00015,       # 4.5 % / 0.05 %
+    "endpoint-touch": 0.03,           # 33 % / 8.4 %
+    "interior-cross": 0.02,           # 19 % / 6 %
+    "3d-skew": 0.02,                  # 8.7 % / 62 %
+    "near-miss": 0.02,                # 16 % / 20 %
+    "rational-point": 0.015,          # 7.5 % / 5.7 %
+    "3d-degenerate-projection": 0.03, # 12 % / 30 %
 }
 ENUMERATE_TIERS = ("thorough",)
 _enum = builtins.enumerate  # the contract's `enumerate` below shadows the builtin in this module
@@ -202,9 +215,9 @@ def _lattice_segments(dim, lo, hi):
 def enumerate(tier, shard, nshards):  # noqa: A001 - name fixed by the contract
     """All unordered pairs {s1, s2} (s1 <= s2 in enumeration order, including s1 == s2) of
     unordered lattice segments; the check itself runs the 8 ordered/oriented presentations.
-    Order: [-2,2]^2 (45 150 pairs), [-1,1]^3 (61 776), then [-3,3]^2 (692 076)."""
+    Order: [-2,2]^2 (45 150 pairs), [-1,1]^3 (61 776), [-3,3]^2 (692 076), [-1,2]^3 (2 033 136)."""
     n = 0
-    for dim, lo, hi in ((2, -2, 2), (3, -1, 1), (2, -3, 3)):
+    for dim, lo, hi in ((2, -2, 2), (3, -1, 1), (2, -3, 3), (3, -1, 2)):
         segs = _lattice_segments(dim, lo, hi)
         for i, s1 in _enum(segs):
             n += 1
